@@ -286,9 +286,9 @@ func (b *bloomcache) Get(ctx context.Context, k cid.Cid) (blocks.Block, error) {
 func (b *bloomcache) Put(ctx context.Context, bl blocks.Block) error {
 	// See comment in PutMany
 	err := b.blockstore.Put(ctx, bl)
-	if err == nil {
-		b.bloom.Load().AddTS(bl.Cid().Hash())
-	}
+	// also on error: the store may have written the block before failing,
+	// and an extra bit is only a false positive
+	b.bloom.Load().AddTS(bl.Cid().Hash())
 	return err
 }
 
@@ -298,13 +298,11 @@ func (b *bloomcache) PutMany(ctx context.Context, bs []blocks.Block) error {
 	// this means that PutMany can't be improved with bloom cache so we just
 	// just do a passthrough.
 	err := b.blockstore.PutMany(ctx, bs)
-	if err != nil {
-		return err
-	}
+	// also on error: some of the blocks may have been written
 	for _, bl := range bs {
 		b.bloom.Load().AddTS(bl.Cid().Hash())
 	}
-	return nil
+	return err
 }
 
 func (b *bloomcache) AllKeysChan(ctx context.Context) (<-chan cid.Cid, error) {
